@@ -1391,6 +1391,19 @@ pub fn suite_race(ctx: &mut Ctx, seed: u64, n: usize, opname: &str) {
         let after = tree::snapshot(&top);
         // verdict of the round
         let mut bad: Vec<String> = Vec::new();
+        // a late caller: in the rounds with the second spelling, one more remove_all of that spelling after every thread
+        // has returned (the schedule in which this caller comes last; deterministic)
+        if opname != "mkdir_all" {
+            if let Some(op @ Op::RemoveAll { path }) = ops_.iter().find(|o| matches!(o, Op::RemoveAll { path } if path.windows(4).any(|w| w == b"/../"))) {
+                let _ = path;
+                if let Ok(root) = Root::open(&rootdir) {
+                    let (outcome, _) = ops::run_recorded(&root, op, None);
+                    if let Outcome::Err(e) = &outcome {
+                        bad.push(format!("thread late {} failed: {}", op.line(), ops::kind_str(e)));
+                    }
+                }
+            }
+        }
         for (k, (op, _, outcome, _, ident)) in results.iter().enumerate() {
             match outcome {
                 Outcome::Fd(_) | Outcome::Unit => {}
